@@ -55,6 +55,9 @@ def canon_cond(w, lab):
                 op, a, b = SWAP[op], b, a
             if op == 'Ne':
                 op, truth = 'Eq', not truth
+            if op == 'Le':
+                # MIR binary comparisons are on primitive integers/chars only: a <= b is exactly !(b < a)
+                op, a, b, truth = 'Lt', b, a, not truth
             if op == 'Eq' and N(a) > N(b):
                 a, b = b, a
             return ('%s(%s, %s)' % (op, N(a), N(b)), 'T' if truth else 'F')
@@ -83,7 +86,7 @@ def canon_cond(w, lab):
     if lab in ('Some', 'None'):
         nw = norm(w)
         if isinstance(nw, tuple) and nw and nw[0] == 'field' and nw[2] in ('0', '1') and is_call(nw[1]) and nw[1][1].split('::')[-1].split('.')[-1] == 'next' \
-                and 'HashMap.iter(' in S(nw[1]):
+                and is_call(strip(w)) and strip(w)[1].split('::')[-1] == 'next':
             return (S(nw[1]), lab)      # "is there a next key" is "is there a next entry"
     if is_call(w) and w[1].split('::')[-1] == 'entry' and len(w[2]) == 2 and lab in ('Occupied', 'Vacant'):
         # match map.entry(k) { Occupied / Vacant } is the test map.contains_key(k)
@@ -186,6 +189,19 @@ def _lam(v):
     return out
 
 
+def _iter_map(nxt):
+    """The collection whose entries the step `next(into_iter([sorted_by_key(][iter(]m[)][, key)]))` visits."""
+    x = nxt[2][0] if is_call(nxt) and nxt[2] else None
+    if not (is_call(x) and x[1].split('::')[-1] == 'into_iter' and x[2]):
+        return None
+    x = x[2][0]
+    if is_call(x) and x[1].split('::')[-1].split('.')[-1] in ('sorted_by_key', 'sorted_unstable_by_key') and x[2]:
+        x = x[2][0]
+    if is_call(x) and x[1].split('::')[-1].split('.')[-1] == 'iter' and len(x[2]) == 1:
+        x = x[2][0]
+    return x
+
+
 def norm(v):
     """Rendering form of a value inside a decision row: the payload of an Option/Result is written like the Option/Result
     itself (`x@Some.0`, `x?` and `x.ok_or(e)?` all read `x`) and error decorations are dropped, so that `?`, `ok_or(..)?` and
@@ -237,22 +253,40 @@ def norm(v):
         if acc is not None:
             return norm(acc)
     out = tuple(norm(x) if isinstance(x, tuple) else x for x in v)
+    if out[0] == 'call' and out[1].split('::')[-1] == 'into_iter' and len(out[2]) == 1 and is_call(out[2][0]) and out[2][0][1].split('::')[-1].split('.')[-1] == 'iter' \
+            and len(out[2][0][2]) == 1 and _ACC_ON[0]:
+        # `for e in x.iter()` and `for e in &x` visit the same elements in the same order
+        out = out[:2] + (out[2][0][2],) + tuple(out[3:])
     if out[0] == 'call' and out[1].split('::')[-1].split('.')[-1] == 'next' and len(out[2]) == 1 and is_call(out[2][0]) and out[2][0][1].split('::')[-1] == 'into_iter' \
             and out[2][0][2] and is_call(out[2][0][2][0]) and out[2][0][2][0][1].split('::')[-1].split('.')[-1] in ('keys', 'values') and 'Hash' in out[2][0][2][0][1]:
         # `for k in map.keys()` is `for (k, _) in map.iter()`: the key (value) is component 0 (1) of the entry
         which = '0' if out[2][0][2][0][1].split('::')[-1].split('.')[-1] == 'keys' else '1'
         m = out[2][0][2][0][2][0]
-        it = ('call', 'q::HashMap.iter', (m,), '', None)
+        it = m if _ACC_ON[0] else ('call', 'q::HashMap.iter', (m,), '', None)
         ent = ('call', out[1], (('call', out[2][0][1], (it,)) + tuple(out[2][0][3:]),)) + tuple(out[3:])
         return ('field', ent, which)
+    if out[0] == 'call' and out[1].split('::')[-1].split('.')[-1] == 'next' and len(out[2]) == 1 and is_call(out[2][0]) and out[2][0][1].split('::')[-1] == 'into_iter' \
+            and out[2][0][2] and is_call(out[2][0][2][0]) and out[2][0][2][0][1].split('::')[-1].split('.')[-1] in ('sorted', 'sorted_unstable') and len(out[2][0][2][0][2]) == 1:
+        # `for k in map.keys().sorted()` is `for (k, _) in map.iter().sorted_by_key(|(k, _)| k)`: keys are unique, same sequence
+        srt = out[2][0][2][0]
+        ks = srt[2][0]
+        if isinstance(ks, tuple) and ks and ks[0] == 'field' and ks[2] == '0' and is_call(ks[1]) and ks[1][1].split('::')[-1].split('.')[-1] == 'next':
+            pass
+        if is_call(ks) and ks[1].split('::')[-1].split('.')[-1] == 'keys' and 'Hash' in ks[1] and ks[2]:
+            it = ('call', 'q::HashMap.iter', (ks[2][0],), '', None)
+            by = ('call', srt[1] + '_by_key', (it, ('lam', 1, ('field', ('param', 1, '$1'), '0')))) + tuple(srt[3:])
+            ent = ('call', out[1], (('call', out[2][0][1], (by,)) + tuple(out[2][0][3:]),)) + tuple(out[3:])
+            return ('field', ent, '0')
+    if out[0] == 'call' and out[1].split('::')[-1].split('.')[-1] == 'unwrap' and 'Option' in out[1] and len(out[2]) == 1 and is_call(out[2][0]) \
+            and out[2][0][1].split('::')[-1].split('.')[-1] == 'get' and 'HashMap' in out[2][0][1] and len(out[2][0][2]) == 2:
+        m, k = out[2][0][2]
+        if isinstance(k, tuple) and k and k[0] == 'field' and k[2] == '0' and is_call(k[1]) and k[1][1].split('::')[-1].split('.')[-1] == 'next':
+            if _iter_map(k[1]) == m:
+                return ('field', k[1], '1')      # map.get(k).unwrap() for the key k of the entry being visited: its value
     if out[0] == 'call' and out[1].split('::')[-1] == 'index' and 'HashMap' in out[1] and len(out[2]) == 2 \
             and isinstance(out[2][1], tuple) and out[2][1][0] == 'field' and out[2][1][2] == '0' and is_call(out[2][1][1]) and out[2][1][1][1].split('::')[-1].split('.')[-1] == 'next':
         inner = out[2][1][1]
-        try:
-            same_map = inner[2][0][2][0][2][0] == out[2][0]
-        except Exception:
-            same_map = False
-        if same_map:
+        if _iter_map(inner) == out[2][0]:
             return ('field', inner, '1')      # map[k] for the key k of the entry being visited: the value of that entry
     if v[0] == 'call' and isinstance(v[1], str) and v[1].endswith('::write_fmt') and len(v[2]) == 2:
         # what is written: literal text and displayed values in order (write!(f, "lit") = f.write_str("lit");
@@ -268,13 +302,24 @@ def norm(v):
     if out[0] == 'call' and isinstance(out[1], str):
         # `new`, `get`, `from_str` .. of different types read the same by their last segment: keep the type of inherent methods
         m = re.match(r'^(?:\w+::)*([A-Z]\w*)(?:::<[^>]*>)?::(\w+)$', out[1])
-        if m and '.' not in out[1]:
+        # (an unresolved conversion-trait call `T::from(x)` in a generic helper reads like the resolved `<X as From<Y>>::from(x)`)
+        if m and '.' not in out[1] and not out[1].startswith('std::convert::'):
             out = (out[0], 'q::%s.%s' % (m.group(1), m.group(2))) + out[2:]
     return out
 
 
 def N(v):
     return S(norm(v))
+
+
+def sorted_key_order(v):
+    """Is the iterated value `v` a hash map taken in sorted key order?  `keys().sorted[_unstable]()`, or the entries
+    sorted by a key function that is the projection onto the key (`iter().sorted[_unstable]_by_key(|(k, _)| k)`)."""
+    from .util import calls_in
+    if (calls_in(v, 'sorted_unstable') or calls_in(v, 'sorted')) and calls_in(v, 'keys'):
+        return True
+    t = N(v)
+    return bool(re.search(r'Itertools\.sorted(_unstable)?_by_key\((Hash|BTree)Map\.iter\([^()]*\), λ1\.\$1\.0\)', t))
 
 
 def _clip(t, n):
@@ -340,6 +385,32 @@ def _apply(f, x):
     if isinstance(f, tuple) and f and f[0] == 'lam' and f[1] == 1:
         return _subst(f[2], x)
     return ('call', 'apply', (f, x), '', None)
+
+
+def _try_for_each(v):
+    """(next-step value, body applied to the step) when `v` is `it.try_for_each(f)` with a branch-free closure f: the loop
+    `for e in it { f(e)? }`.  None otherwise."""
+    for _ in range(6):
+        if isinstance(v, tuple) and v and v[0] == 'try':
+            v = v[1]
+        elif is_call(v) and v[1].split('::')[-1] in ('with_span', 'with_file', 'map_err') and v[2]:
+            v = v[2][0]
+        else:
+            break
+    if not (is_call(v) and v[1].split('::')[-1] == 'try_for_each' and 'Iterator' in v[1] and len(v[2]) == 2):
+        return None
+    lam = norm(v[2][1])
+    if not (isinstance(lam, tuple) and lam and lam[0] == 'lam' and lam[1] == 1):
+        return None
+    it = norm(('call', '<I as std::iter::IntoIterator>::into_iter', (v[2][0],), '', None))
+    nxt = ('call', 'std::iter::Iterator::next', (it,), '', None)
+    return nxt, _apply(lam, nxt)
+
+
+def _trace_entry(c):
+    nm = c[1].split('::')[-1]
+    a = ', '.join(_clip(S(x), 90) for x in c[2])
+    return '%s(%s)' % (nm.split('.')[-1] if not c[1].startswith('<') else nm, _clip(a, 240))
 
 
 def expand_result(v, top=True, kind='R'):
@@ -465,6 +536,17 @@ def _decision_table(ctx, fn, max_visits=1, full=None, plain=False):
             rows.append({'conds': ['<path explosion>'], 'checks': [], 'out': 'toomany'})
             continue
         conds = ['%s=%s' % canon_cond(w, l) for w, l in p.conds]
+        tfe_rows = []
+        for ci, (w, l) in enumerate(p.conds):
+            # `it.try_for_each(f)?` is the loop `for e in it { f(e)? }`: passing it = the iterator is exhausted, failing it = one
+            # step whose body fails; the step whose body succeeds is the loop row
+            t = _try_for_each(w) if isinstance(w, tuple) and w and w[0] == 'try' and l in ('Continue', 'Break') else None
+            if t is not None:
+                nxt, body = t
+                step = [S(nxt) + '=Some', S(body) + '=%s']
+                tfe_rows.append((ci, nxt, body))
+                conds[ci] = (S(nxt) + '=None') if l == 'Continue' else '\x00'.join(step) % 'Err'
+        conds = [c for c0 in conds for c in c0.split('\x00')]
         checks = []
         for e in p.events:
             if e[0] == 'try':
@@ -526,6 +608,11 @@ def _decision_table(ctx, fn, max_visits=1, full=None, plain=False):
                     continue      # the look-up half of entry(): shows as the contains_key test; the write is VacantEntry::insert
                 if e[0] == 'call' and e[1].split('::')[-1] not in DECOR and ((len(e) > 6 and e[6]) or ('VacantEntry' in e[1] and e[1].endswith('::insert'))):
                     nv = norm(('call', e[1], e[2], '', None))
+                    if nv[0] != 'call':
+                        while isinstance(nv, tuple) and nv and nv[0] != 'call':      # an entry component of an iterator step: the step
+                            nv = nv[1] if len(nv) > 1 else None
+                        if nv is None:
+                            continue
                     if nv[1].split('::')[-1].split('.')[-1] in ('panic', 'panic_fmt', 'panic_display', 'assert_failed', 'unreachable_display', 'expect_failed', 'unwrap_failed'):
                         nv = (nv[0], nv[1], ())      # the message text (it names source variables) is not behaviour
                     a = ', '.join(_clip(S(x), 90) for x in nv[2])
@@ -547,6 +634,48 @@ def _decision_table(ctx, fn, max_visits=1, full=None, plain=False):
                 v = p.env.get(loc)
                 if isinstance(v, tuple) and name in getattr(p, 'havocked', ()):
                     row['state'][name] = _clip(N(v), 120)
+        if tfe_rows or (kind == 'RET' and isinstance(ret, tuple) and _try_for_each(ret) is not None):
+            def steps(tr, nxt, body, some):
+                out, cut = [], None
+                for t0 in tr:
+                    if t0.startswith('try_for_each(') and cut is None:
+                        cut = len(out)
+                        out.append(_trace_entry(nxt))
+                        if some and is_call(body):
+                            out.append(_trace_entry(body))
+                    else:
+                        out.append(t0)
+                return out, cut
+            for ci, nxt, body in tfe_rows:
+                failing = p.conds[ci][1] == 'Break'
+                if 'trace' in row:
+                    tr, cut = steps(row['trace'], nxt, body, failing)
+                    if not failing and cut is not None:
+                        # the step whose body succeeds: everything up to the loop, then back to the loop head
+                        r2 = dict(row)
+                        r2['conds'] = ['%s=%s' % canon_cond(w, l) for w, l in p.conds[:ci] if _try_for_each(w) is None] + [S(nxt) + '=Some', S(body) + '=Ok']
+                        r2['out'], r2['value'], r2['effects'] = 'loop', '', []
+                        r2['trace'] = tr[:cut] + [_trace_entry(nxt)] + ([_trace_entry(body)] if is_call(body) else [])
+                        rows.append(r2)
+                    row['trace'] = tr
+                elif not failing:
+                    r2 = dict(row)
+                    r2['conds'] = ['%s=%s' % canon_cond(w, l) for w, l in p.conds[:ci] if _try_for_each(w) is None] + [S(nxt) + '=Some', S(body) + '=Ok']
+                    r2['out'], r2['value'], r2['effects'] = 'loop', '', []
+                    rows.append(r2)
+            t = _try_for_each(ret) if kind == 'RET' and isinstance(ret, tuple) and (not p.conds or True) else None
+            if t is not None and ret_kind(ret) != 'residual':
+                nxt, body = t
+                for extra, o, v, some in (([S(nxt) + '=None'], 'ok:tuple', 'Ok{tuple{}}', False),
+                                          ([S(nxt) + '=Some', S(body) + '=Err'], 'err:' + ','.join(dict.fromkeys(err_variants(ret) + with_closure_errors(ret))), '', True),
+                                          ([S(nxt) + '=Some', S(body) + '=Ok'], 'loop', '', True)):
+                    r2 = dict(row)
+                    r2['conds'] = conds + extra
+                    r2['out'], r2['value'] = o, v
+                    if 'trace' in r2:
+                        r2['trace'] = steps(row['trace'], nxt, body, some)[0]
+                    rows.append(r2)
+                continue
         if kind == 'RET' and isinstance(ret, tuple) and is_call(ret) and ret[1].split('::')[-1] == 'find_map' and 'Iterator' in ret[1] and len(ret[2]) == 2:
             # it.find_map(f) is the loop `for e in it { if let Some(v) = f(e) { return Some(v) } } None`: its three single-visit rows
             it = norm(('call', '<I as std::iter::IntoIterator>::into_iter', (ret[2][0],), '', None))
